@@ -1,5 +1,6 @@
 import Generated.Facts
 import SsoSpec.C01
+import SsoSpec.C04
 
 /-!
 # C13 — requests are handled under the policy and backend of the upstream their Host names
@@ -148,5 +149,60 @@ theorem C13_wiring2 :
       ["func{", "call:ReplaceAllString", "call:urlParse", "if{", "store:req.URL", "return", "}", "call:?", "}", "return"] ∧
     Sso.Generated.skel_proxy_singleJoiningSlash =
       ["call:HasSuffix", "call:HasPrefix", "switch{", "case aslash&&bslash{", "return", "}", "case !aslash&&!bslash{", "return", "}", "}", "return"] := by decide
+
+
+/-! ### one browser, several upstreams: the host binding along every history
+
+A deployment serves several upstreams; each request is handled under the policy of the upstream its Host routes to. The
+history below lets every step carry its own policy (any upstream, any rules, any provider slug) and lets the client present
+any cookie of the chain at any step. -/
+
+/-- a history whose steps are each handled under their own upstream's policy -/
+def runM (lower : Validators.Bytes → Validators.Bytes) (w : World) : List (Policy × Step) → World × List HandlerOut
+  | [] => (w, [])
+  | (P, st) :: t =>
+    let (w', o) := stepW lower P w st
+    let (w'', os) := runM lower w' t
+    (w'', o :: os)
+
+/-- **A session obtained for one upstream host is never accepted on another — along every history.** Starting from a login
+on host `A`, whatever sequence of requests follows (to any hosts, under any upstreams' policies, presenting any cookie of the
+chain, with any authenticator answers): every session ever re-sealed is still bound to `A` (and to the same user and provider),
+and every request that reaches a backend as an authenticated request was addressed to `A` and handled under a policy whose
+provider issued the session. -/
+theorem C13_session_never_accepted_elsewhere (lower : Validators.Bytes → Validators.Bytes) (w : World) (hw : WInv w)
+    (sts : List (Policy × Step)) :
+    WInv (runM lower w sts).1 ∧
+    ∀ p ∈ sts.zip (runM lower w sts).2, ∀ id, p.2.outcome = .forward (some id) →
+      p.1.2.req.host = w.root.host ∧ p.1.1.slug = w.root.slug := by
+  induction sts generalizing w with
+  | nil => simp [runM]; exact hw
+  | cons pst t ih =>
+    obtain ⟨P, st⟩ := pst
+    have h1 := stepW_inv lower P w st hw
+    have ih' := ih (stepW lower P w st).1 h1
+    simp only [runM]
+    refine ⟨ih'.1, ?_⟩
+    intro p hp id hf
+    simp only [List.zip_cons_cons, List.mem_cons] at hp
+    rcases hp with rfl | hp
+    · simp only [stepW] at hf
+      rcases C01_forward_sound lower P st.now st.req _ st.ans (some id) hf with ⟨_, h⟩ | ⟨_, s, hc, hs, hh, _⟩
+      · cases h
+      · have := cookie_identity w hw _ s hc
+        exact ⟨by rw [← hh]; exact this.2.1.symm, by rw [← hs]; exact this.1.symm⟩
+    · have := ih'.2 p hp id hf
+      have hr : (stepW lower P w st).1.root = w.root := rfl
+      rw [hr] at this; exact this
+
+-- the invariant holds at a login: nothing has been re-sealed yet
+example (s : Sess) : WInv ⟨s, []⟩ := by intro x hx; cases hx
+
+/-- in particular: a cookie of the chain presented at another host reaches no backend there -/
+theorem C13_other_host_never_served (lower : Validators.Bytes → Validators.Bytes) (w : World) (hw : WInv w)
+    (sts : List (Policy × Step)) :
+    ∀ p ∈ sts.zip (runM lower w sts).2, p.1.2.req.host ≠ w.root.host → ∀ id, p.2.outcome ≠ .forward (some id) := by
+  intro p hp hne id hf
+  exact hne ((C13_session_never_accepted_elsewhere lower w hw sts).2 p hp id hf).1
 
 end Sso.Proxy
